@@ -19,6 +19,7 @@ type Program struct {
 	Note     string
 	Support  string // extra support source appended to support.go
 	Bounds   map[string][2]int // per family: {KL, KM} caps (stated in evidence)
+	RepoSupport bool           // support code copied from /repo/test (P00)
 	Extra    string            // hand-written harness source appended to zz_spec.go (family "custom")
 	ExtraHs  []string          // names of the harness functions in Extra
 }
@@ -44,6 +45,9 @@ func programs() []*Program {
 		}
 		ps = append(ps, p)
 	}
+	add(&Program{Name: "P00", Quick: true, Families: []string{"rt", "from", "echo", "refresh", "schema"}, Raw: p00Descriptor, Cfg: p00Config,
+		RepoSupport: true, Bounds: map[string][2]int{"rt": {2, 1}, "from": {2, 1}, "echo": {2, 1}, "refresh": {2, 1}},
+		Note: "the repository's own fixture (test/test.pb.go, test/test.proto, test/config.yaml)"})
 	add(&Program{Name: "P-mini", Quick: true,
 		File: func() *FileSpec {
 			t := msg("T", []string{"O"},
